@@ -7,7 +7,8 @@
 //	merge   : parquet.MergeRowGroups(children, sorting)              (rows computed by merging)
 //	dedupe  : parquet.MergeRowGroups(children, sorting, DropDuplicatedRows(true))
 //	multi   : parquet.MultiRowGroup(children...), the children being consecutive
-//	          pieces of one sorted sequence (concatenation = sorted)
+//	          pieces of one sorted sequence (concatenation = sorted): leaves, empty
+//	          ones at every position, or concatenations of their own (c09GenConcat)
 //	convert : parquet.ConvertRowGroup(child, Convert(schema, wide schema)): the
 //	          subtree below is built in a wider schema (two more columns, one
 //	          of them before the sorting columns: the column indexes differ)
@@ -511,19 +512,7 @@ func c09GenForest(intn func(int) int, pool func() []c09Key, inputs *[][]c09Key, 
 			}
 			return n
 		case r < 10: // consecutive pieces of one sorted sequence
-			keys := pool()
-			n := c09Node{Op: "multi"}
-			pieces := 2 + intn(2)
-			at := 0
-			for p := 0; p < pieces; p++ {
-				end := len(keys)
-				if p+1 < pieces {
-					end = at + intn(len(keys)-at+1)
-				}
-				n.Kids = append(n.Kids, leaf(keys[at:end]))
-				at = end
-			}
-			return n
+			return c09GenConcat(intn, pool(), leaf, 0)
 		default:
 			if wide {
 				return leaf(pool())
@@ -542,6 +531,70 @@ func c09GenForest(intn func(int) int, pool func() []c09Key, inputs *[][]c09Key, 
 	return top
 }
 
+// c09GenConcat: a concatenation (multi node) of 2-3 consecutive pieces of the sorted sequence keys.  The
+// cut points are uniform over the positions, one in three moved to the start, the end or onto another
+// cut, so that empty pieces occur first, last and in the middle; a piece (empty or not) is a leaf or, one
+// time in three and down to three levels, a concatenation of its own pieces: empty leaves occur at every
+// position of concatenations nested in concatenations.
+func c09GenConcat(intn func(int) int, keys []c09Key, leaf func([]c09Key) c09Node, level int) c09Node {
+	n := c09Node{Op: "multi"}
+	pieces := 2 + intn(2)
+	cuts := make([]int, pieces-1)
+	for i := range cuts {
+		switch intn(6) {
+		case 0:
+			cuts[i] = 0
+		case 1:
+			cuts[i] = len(keys)
+		default:
+			cuts[i] = intn(len(keys) + 1)
+		}
+	}
+	sort.Ints(cuts)
+	cuts = append(cuts, len(keys))
+	at := 0
+	for _, end := range cuts {
+		if level < 2 && intn(3) == 0 {
+			n.Kids = append(n.Kids, c09GenConcat(intn, keys[at:end], leaf, level+1))
+		} else {
+			n.Kids = append(n.Kids, leaf(keys[at:end]))
+		}
+		at = end
+	}
+	return n
+}
+
+// c09ConcatShape: how the concatenations of a forest are nested and where their empty leaves lie
+// ("multi-in-multi", "empty-leaf-in-inner-multi"): coverage buckets.
+func c09ConcatShape(t []c09Node, inMulti int, cs *c09Case, shape map[string]bool) {
+	for i := range t {
+		n := &t[i]
+		switch {
+		case n.Op == "multi":
+			if inMulti > 0 {
+				shape["multi-in-multi"] = true
+			}
+			c09ConcatShape(n.Kids, inMulti+1, cs, shape)
+		case n.Op == "leaf":
+			if len(cs.Inputs[n.Leaf]) == 0 && inMulti > 0 {
+				pos := "middle"
+				if i == 0 {
+					pos = "first"
+				} else if i == len(t)-1 {
+					pos = "last"
+				}
+				if inMulti > 1 {
+					shape["empty-"+pos+"-in-inner-multi"] = true
+				} else {
+					shape["empty-"+pos+"-in-multi"] = true
+				}
+			}
+		default:
+			c09ConcatShape(n.Kids, 0, cs, shape)
+		}
+	}
+}
+
 func c09ForestBucket(cs *c09Case) string {
 	b := fmt.Sprintf("nested/depth=%d", c09TreeDepth(cs.Tree))
 	if cs.Dedupe {
@@ -552,18 +605,23 @@ func c09ForestBucket(cs *c09Case) string {
 
 // c09GoPlanTop observes the plan of the root merge of a nested case in terms of its inputs: every
 // element of rowGroupSegments as parts (input, offset, rows).  An input that is a single non-empty
-// leaf (as it is, converted, or handed back by an inner merge) has a fixed row sequence: its rows in an
-// element must be an ascending contiguous range.  For the other inputs (computed rows; the order of
+// leaf (as it is, converted, or handed back by an inner merge) or a concatenation of leaves (multi nodes
+// only, nested or not, converted or not) has a fixed row sequence, the concatenation of its leaves: its
+// rows in an element must be an ascending contiguous range of it.  For the other inputs (computed rows; the order of
 // their rows with equal keys is not fixed) the rows are counted, the offset is 0.
 func c09GoPlanTop(s *c09Schema, merged parquet.RowGroup, cs *c09Case, top []*c09Built) (plan [][]c09Part, bad, err string) {
 	topOf := make([]int, len(cs.Inputs))
+	base := make([]int, len(cs.Inputs)) // rows of the leaves of the same input of the root that come before this leaf
 	fixed := make([]bool, len(top))
 	for i, b := range top {
 		nonEmpty := 0
+		rowsBefore := 0
 		var mark func(n *c09Node)
 		mark = func(n *c09Node) {
 			if n.Op == "leaf" {
 				topOf[n.Leaf] = i
+				base[n.Leaf] = rowsBefore
+				rowsBefore += len(cs.Inputs[n.Leaf])
 				if len(cs.Inputs[n.Leaf]) > 0 {
 					nonEmpty++
 				}
@@ -575,7 +633,9 @@ func c09GoPlanTop(s *c09Schema, merged parquet.RowGroup, cs *c09Case, top []*c09
 		mark(b.node)
 		ops := map[string]bool{}
 		c09TreeOps([]c09Node{*b.node}, ops)
-		fixed[i] = nonEmpty <= 1 && !ops["dedupe"]
+		// a single non-empty leaf, or concatenations (and conversions) of leaves only: the row sequence
+		// of the input is the concatenation of its leaves
+		fixed[i] = !ops["dedupe"] && (nonEmpty <= 1 || !ops["merge"])
 	}
 	segs, isSeg, e := c09PlanSegments(merged)
 	if e != "" {
@@ -603,12 +663,12 @@ func c09GoPlanTop(s *c09Schema, merged parquet.RowGroup, cs *c09Case, top []*c09
 				at[t] = len(parts)
 				off := 0
 				if fixed[t] {
-					off = o.Seq
+					off = base[o.In] + o.Seq
 				}
 				parts = append(parts, c09Part{In: t, Off: off, Len: 1})
 				continue
 			}
-			if want := parts[i].Off + parts[i].Len; fixed[t] && o.Seq != want {
+			if want := parts[i].Off + parts[i].Len; fixed[t] && base[o.In]+o.Seq != want {
 				return nil, fmt.Sprintf("element %d of the plan (%T): row %d is row %d of input %d (leaf %d), after rows %d..%d of it", n, seg, p, o.Seq, t, o.In, parts[i].Off, want-1), ""
 			}
 			parts[i].Len++
